@@ -9,7 +9,13 @@ import sys, threading
 from concurrent.futures import InvalidStateError
 
 BEHS = ['BRaise', 'BSyncOk', 'BSyncErr', 'BLaterOk', 'BLaterErr']
-LATER = ('BLaterOk', 'BLaterErr')
+# harness-only refinement of BLaterOk: the statement is executed by a REAL ResponseFuture (C18 fakes behind it) whose
+# result has three pages; the consumer pages through the ResultSet as soon as it gets it.  Paging through a result must
+# not touch the executor, so the model sees a plain BLaterOk.
+PAGED = 'BPagedOk'
+MODEL_BEH = {PAGED: 'BLaterOk'}
+LATER = ('BLaterOk', 'BLaterErr', PAGED)
+OK = ('BSyncOk', 'BLaterOk', PAGED)
 
 
 class StmtError(Exception):
@@ -47,6 +53,7 @@ class Sched(object):
         self.ctl = threading.Semaphore(0)
         self.by_thread = {}
         self.executor = None
+        self.unlocked_future_access = 0
         self.results_outcome = None   # what _results() returned / raised (async variant: pc MRet)
 
     def spawn(self, name, fn):
@@ -135,6 +142,147 @@ class FakeCondition(object):
         self.notify(len(self.waiting))
 
 
+def make_sched_future(C):
+    """concurrent.futures.Future whose accesses from a scheduled thread that does NOT hold the executor's condition are
+    scheduling points of their own (DESIGN 2.4: an access the source makes outside the lock is a separate atomic step).
+    The shipped code touches the future only under the lock, so nothing changes for it."""
+    from concurrent.futures import Future
+
+    class SchedFuture(Future):
+        def _point(self):
+            sched = FakeCondition.sched
+            w = sched.me() if sched is not None else None
+            if w is None:
+                return
+            ex = sched.executor
+            cond = getattr(ex, '_condition', None)
+            if cond is None or cond.owner is not w:
+                sched.unlocked_future_access += 1
+                sched.pause(w, 'boundary')
+
+        def done(self):
+            self._point()
+            return Future.done(self)
+
+        def set_result(self, r):
+            self._point()
+            return Future.set_result(self, r)
+
+        def set_exception(self, e):
+            self._point()
+            return Future.set_exception(self, e)
+    return SchedFuture
+
+
+def audit_future_lock(src):
+    """lock-region audit: every call on self.future inside ConcurrentExecutorFutureResults must be lexically inside a
+    `with self._condition:` of the same method.  Returns a list of problems."""
+    import ast
+    probs = []
+    tree = ast.parse(src)
+    cls = [n for n in tree.body if isinstance(n, ast.ClassDef) and n.name == 'ConcurrentExecutorFutureResults']
+    if not cls:
+        return ['class ConcurrentExecutorFutureResults not found']
+
+    def is_self_attr(n, attr):
+        return isinstance(n, ast.Attribute) and n.attr == attr and isinstance(n.value, ast.Name) and n.value.id == 'self'
+
+    def walk(node, locked, meth):
+        if isinstance(node, ast.With) and any(is_self_attr(i.context_expr, '_condition') for i in node.items):
+            locked = True
+        if isinstance(node, ast.Call) and isinstance(node.func, ast.Attribute) and is_self_attr(node.func.value, 'future') and not locked:
+            probs.append('%s: self.future.%s() outside `with self._condition` (line %d)' % (meth, node.func.attr, node.lineno))
+        for ch in ast.iter_child_nodes(node):
+            walk(ch, locked, meth)
+    for m in cls[0].body:
+        if isinstance(m, ast.FunctionDef):
+            walk(m, False, m.name)
+    # execute_concurrent_async must not touch the future directly either
+    for fn in tree.body:
+        if isinstance(fn, ast.FunctionDef) and fn.name == 'execute_concurrent_async':
+            for n in ast.walk(fn):
+                if isinstance(n, ast.Call) and isinstance(n.func, ast.Attribute) and isinstance(n.func.value, ast.Name) \
+                        and n.func.value.id == 'future' and n.func.attr in ('set_result', 'set_exception', 'done'):
+                    probs.append('execute_concurrent_async: future.%s() outside the executor\'s condition (line %d)' % (n.func.attr, n.lineno))
+    return probs
+
+
+def detsched_search(max_runs=900):
+    """Directed search with two REAL threads (real Condition, real Future) switched at source-line granularity of
+    cassandra/concurrent.py: the caller runs execute_concurrent_async on one statement, the io thread delivers its result.
+    Returns (schedule, what) for the first schedule in which the future is completed twice, else None."""
+    import threading
+    from vf import detsched
+    from vf.impl import import_cluster
+    import_cluster()
+    import cassandra.concurrent as C
+
+    def one(schedule):
+        registered = threading.Event()
+
+        class Sess(object):
+            log = []
+
+            def execute_async(self, statement, params, timeout=None, execution_profile=None, **kw):
+                self.f = FakeFuture(self, params[0], 'BLaterOk')
+                orig = self.f.add_callbacks
+
+                def add(*a, **k):
+                    orig(*a, **k)
+                    registered.set()
+                self.f.add_callbacks = add
+                return self.f
+        sess = Sess()
+
+        def caller():
+            return C.execute_concurrent_async(sess, iter([('stmt', (0,))]), concurrency=1)
+
+        def io():
+            registered.wait(5)
+            sess.f.fire()
+        r = detsched.Run([caller, io], ['cassandra/concurrent.py'], schedule, block_timeout=0.02).run()
+        bad = [type(e).__name__ for e in r.errors if e is not None]
+        return bad, r
+    n = 0
+    for k2 in range(4, 30):
+        for k3 in range(1, 34):
+            sched = [0] * 80 + [1] * k2 + [0] * k3 + [1] * 200 + [0] * 200
+            bad, r = one(sched)
+            n += 1
+            if 'InvalidStateError' in bad:
+                who = 'execute_concurrent_async (the caller gets an exception instead of the future)' if isinstance(r.errors[0], InvalidStateError) else 'the io thread callback'
+                return {'k2': k2, 'k3': k3, 'schedule': sched, 'runs': n, 'lines': r.trace[-40:]}, 'InvalidStateError raised in %s' % who
+            if n >= max_runs:
+                return None
+    return None
+
+
+def detsched_replay(schedule):
+    import threading
+    from vf import detsched
+    from vf.impl import import_cluster
+    import_cluster()
+    import cassandra.concurrent as C
+    registered = threading.Event()
+
+    class Sess(object):
+        log = []
+
+        def execute_async(self, statement, params, timeout=None, execution_profile=None, **kw):
+            self.f = FakeFuture(self, params[0], 'BLaterOk')
+            orig = self.f.add_callbacks
+
+            def add(*a, **k):
+                orig(*a, **k)
+                registered.set()
+            self.f.add_callbacks = add
+            return self.f
+    sess = Sess()
+    r = detsched.Run([lambda: C.execute_concurrent_async(sess, iter([('stmt', (0,))]), concurrency=1),
+                      lambda: (registered.wait(5), sess.f.fire())], ['cassandra/concurrent.py'], schedule, block_timeout=0.02).run()
+    return [type(e).__name__ if e is not None else None for e in r.errors], r.trace
+
+
 class FakeFuture(object):
     """what Session.execute_async returns: a ResponseFuture-shaped object completed by the history"""
     _col_names = None
@@ -168,6 +316,43 @@ class FakeFuture(object):
             self.eb[0](StmtError(self.idx), *self.eb[1])
 
 
+class PagedFuture(object):
+    """pending-entry for a statement run by a real ResponseFuture over the C18 scripted server (3 pages)"""
+
+    def __init__(self, session, idx):
+        from vf.impl import import_cluster
+        cl = import_cluster()
+        from vf import pgconc_paging as P18
+        from cassandra.protocol import QueryMessage
+        from cassandra.query import SimpleStatement
+        self.session, self.idx, self.ok = session, idx, True
+
+        class Srv(P18.Server):
+            def response(srv, carried):
+                m = P18.Server.response(srv, carried)
+                if getattr(m, 'parsed_rows', None) is not None:
+                    m.column_names, m.column_types = ['k', 'v'], [None, None]
+                    m.parsed_rows = [('row', r[0]) for r in m.parsed_rows]
+                return m
+        self.server = Srv([[idx], [idx + 1000], [idx + 2000]], False)
+        fs = P18.FakeSession(self.server)
+        self.rf = cl.ResponseFuture(fs, QueryMessage('SELECT', 1, fetch_size=1), SimpleStatement('SELECT'), None)
+        self.rf._event = P18.FakeEvent(self.server)
+        self.rf.send_request()
+
+    def fire(self):
+        self.session.log.append(('deliver', self.idx, True))
+        self.server.deliver_one()          # first page -> _set_result -> _set_final_result -> the executor's callback
+
+
+def page_through(er):
+    """the consumer reads every page of a paged result; returns the row ids"""
+    v = er.result_or_exc
+    if er.success and getattr(getattr(v, 'response_future', None), '_paging_state', None) is not None:
+        return [r[1] for r in v]
+    return None
+
+
 class FakeSession(object):
     def __init__(self, behs):
         self.behs = behs
@@ -184,6 +369,11 @@ class FakeSession(object):
         if b == 'BRaise':
             self.log.append(('raise', idx))
             raise StmtError(idx)
+        if b == PAGED:
+            pf = PagedFuture(self, idx)
+            self.pending[idx] = pf
+            self.peak = max(self.peak, len(self.pending))
+            return pf.rf
         f = FakeFuture(self, idx, b)
         if b in LATER:
             self.pending[idx] = f
@@ -225,6 +415,7 @@ class Run(object):
         self.trace = []
         self.yielded = []
         self.future = None
+        self.paged_rows = []
         self.main_outcome = None       # ('return', [...]) | ('raise', idx)  as seen by the caller of execute_concurrent*
         self.escaped = []              # exceptions that escaped a completion thread
         self.invalid_state = 0
@@ -237,9 +428,10 @@ class Run(object):
         C = self.C
         run = self
         self.saved = (C.Condition, C._ConcurrentExecutor.__init__, C.ConcurrentExecutorListResults._results,
-                      C._ConcurrentExecutor.max_error_recursion)
+                      C._ConcurrentExecutor.max_error_recursion, C.Future)
         FakeCondition.sched = self.sched
         C.Condition = FakeCondition
+        C.Future = make_sched_future(C)
         orig_init, orig_results = self.saved[1], self.saved[2]
 
         def init(ex, *a, **kw):
@@ -261,7 +453,7 @@ class Run(object):
 
     def __exit__(self, *a):
         C = self.C
-        C.Condition, C._ConcurrentExecutor.__init__, C.ConcurrentExecutorListResults._results, C._ConcurrentExecutor.max_error_recursion = self.saved
+        C.Condition, C._ConcurrentExecutor.__init__, C.ConcurrentExecutorListResults._results, C._ConcurrentExecutor.max_error_recursion, C.Future = self.saved
         FakeCondition.sched = None
         # let abandoned threads die (daemon threads blocked on their semaphore hold no driver state)
 
@@ -283,6 +475,9 @@ class Run(object):
                 for r in g:
                     self.yielded.append(res_id(r))
                     self.main_w.just_yielded = True
+                    rows = page_through(r)          # the consumer pages through the result while execution goes on
+                    if rows is not None:
+                        self.paged_rows.append(rows)
                 self.main_outcome = ('return', list(self.yielded))
             else:
                 if self.with_args:
@@ -464,5 +659,5 @@ def g_op(op):
 
 
 def g_case(r):
-    cfg = 'mkCfg [%s] %d %s %s %d' % ('; '.join(r.behs), r.conc, 'true' if r.ff else 'false', r.variant, r.maxrec)
+    cfg = 'mkCfg [%s] %d %s %s %d' % ('; '.join(MODEL_BEH.get(b, b) for b in r.behs), r.conc, 'true' if r.ff else 'false', r.variant, r.maxrec)
     return 'check_case (%s) [%s] [%s]' % (cfg, '; '.join(g_op(o) for o in r.ops), ';\n '.join(g_obs(o) for o in r.trace))
